@@ -251,11 +251,15 @@ func distinctIDs(gs []MG) bool {
 	return true
 }
 
+// aggCasesDiv scales the number of aggregation cases down for properties that
+// run the aggregation stream next to their own streams.
+var aggCasesDiv = 1
+
 func genAggCases(r *Rng, tier string, emit func(aggCase)) {
-	n := 1500
+	n := 1500 / aggCasesDiv
 	maxG := 40
 	if tier == "thorough" {
-		n = 30000
+		n = 30000 / aggCasesDiv
 		maxG = 120
 	}
 	// corpus first
